@@ -69,6 +69,11 @@ class Mode:
             ns = {"_rec": _rec}
             exec(src, ns)
             return ns[name]
+        def mkfn_tagged(name):
+            src = "def %s(self):\n    _rec(self, %r, {})\n" % (name, name + "@sibling")
+            env = {"_rec": _rec}
+            exec(src, env)
+            return env[name]
         ns = {"MODE_NAME": self.name}
         base_ns = {}       # states declared on a base class of the mode (layer 0); "ov": a base-class variant with another
         top_ns = ns        # duration / next state that the mode overrides
@@ -100,6 +105,21 @@ class Mode:
             root = type("GenBase" + self.name, (StatefulAutonomous,), base_ns)
         cls = type("Gen" + self.name, (root,), ns)
         self.obj = cls()
+        if base_ns:
+            # a sibling mode built on the same base class and constructed later (the selector constructs every mode it
+            # finds): it defines the states the observed mode defines itself, with other bodies, durations and
+            # successors; nothing of it may ever show in the observed mode
+            sib_ns = {"MODE_NAME": self.name + "_sib"}
+            for s in shape["states"]:
+                if layer.get(s, "top") != "base":
+                    sib_ns[s] = timed_state(duration=9, next_state=shape["states"][-1],
+                                            first=(s == shape["first"]))(mkfn_tagged(s))
+            if shape["first"] not in sib_ns and layer.get(shape["first"], "top") != "base":
+                pass
+            try:
+                self.sibling = type("GenSib" + self.name, (root,), sib_ns)()
+            except Exception:  # noqa  (a sibling without a first state of its own cannot be built: fine)
+                self.sibling = None
         self.table = ntcore.NetworkTableInstance.getDefault().getTable("SmartDashboard")
 
     def on_call(self, obj, name, kw):
